@@ -131,7 +131,14 @@ pub fn parse_u64_digits<'a, Iter, const FORMAT: u128>(
     for &c in iter {
         let digit = char_to_valid_digit_const(c, radix as u32);
         if !*overflowed {
-            let result = mantissa.checked_mul(radix).and_then(|x| x.checked_add(digit as u64));
+            // Only the first `u64_step(radix)` significant digits belong to the
+            // mantissa: the exponent was calculated for exactly that many. For
+            // radix 8 and 32, another digit may still fit in 64 bits.
+            let result = if *step > 0 {
+                mantissa.checked_mul(radix).and_then(|x| x.checked_add(digit as u64))
+            } else {
+                None
+            };
             if let Some(mant) = result {
                 *mantissa = mant;
             } else {
